@@ -78,6 +78,11 @@ func (p sfProbe) SafeFormat(s redact.SafePrinter, verb rune) {
 	p.o.Calls = c + 1
 }
 
+// fwdPanicker's Format method panics for every verb.
+type fwdPanicker struct{}
+
+func (fwdPanicker) Format(s fmt.State, verb rune) { panic("boom") }
+
 // forwarder prints its value by re-creating the directive with MakeFormat.
 type forwarder struct{ x interface{} }
 
@@ -200,6 +205,18 @@ func judgeFwd(rep *lib.Report, ln fwdLine, haveModel bool) {
 					rep.DriftAt(fmt.Sprintf("%s: directive %q: MakeFormat = (%v,%q), model (%v,%q)", name, f, o1.JustV, o1.MF, ln.JustV, string(ln.MF)))
 				}
 			}
+		}
+	}
+	// the same directive applied to a container: an earlier element whose method panics (contained and
+	// reported) must not change what a later element observes
+	{
+		var o3 obs
+		out := string(redact.Sprintf(f, append(append([]interface{}{}, stars...), []interface{}{fwdPanicker{}, fProbe{&o3}})...))
+		rep.AddEval(1)
+		var o1 obs
+		redact.Sprintf(f, append(append([]interface{}{}, stars...), fProbe{&o1})...)
+		if o3.Calls != 1 || !o1.same(o3) || o1.MF != o3.MF {
+			rep.Violate("fwd:after-panic", fmt.Sprintf("redact: directive %q on [panicking element, probe]: the probe observed %+v, alone it observes %+v (output %q)", f, o3, o1, out), kase)
 		}
 	}
 	// (c),(d) under the standard fmt, Safe(x), Unsafe(x) and a forwarding formatter print exactly like x
